@@ -5,7 +5,7 @@ import vlib
 TARGETS = ["Base/Corr.vo", "Base/Fl.vo", "Base/Num.vo", "C01/Model.vo", "C01/Corr.vo", "C01/ModelR.vo", "C01/CorrR.vo",
            "C01/Spec.vo", "C01/ProofsList.vo", "C01/ProofsComb.vo", "C01/ProofsCoef.vo", "C01/ProofsJet.vo",
            "C01/ProofsRefuted.vo", "C01/ProofsStore.vo", "C01/ProofsOps.vo", "C01/ProofsSound.vo", "C01/ProofsChain2.vo",
-           "C01/ProofsProg.vo", "C01/Props.vo"]
+           "C01/ProofsProg.vo", "C01/ModelVariants.vo", "C01/ProofsAlias.vo", "C01/Props.vo"]
 PROPS = ["C01/Props.v"]
 PARTIAL = ("Theorems are over the reals and about the hand-written register-file model coq/C01/Model.v (tied to /repo HEAD by the "
            "bit-exact single-step replay). Proved: combinator algebra (all n, orders 0-2, all aliasing for one argument; two arguments "
